@@ -27,6 +27,10 @@ def breakages(g):
         yield 'negative-reward', lambda h, s=s: h['rewards'].__setitem__(s, -1e-9)
         yield 'unknown-player', lambda h, s=s: h['players'].__setitem__(s, "Player 3")
         yield 'unknown-player', lambda h, s=s: h['players'].__setitem__(s, "player 1")
+        if s in (0, n - 1):
+            # an unknown player need not be a string (nor hashable): None, a number, a list, a dict
+            for badp in (None, 7, ["Player 1"], {"Player 1": 1}):
+                yield 'unknown-player', lambda h, s=s, badp=badp: h['players'].__setitem__(s, badp)
         for bad in (None, [], 5, "ab", (("a", 0),), {0: 1}):
             yield 'state-without-transitions-or-not-a-list', lambda h, s=s, bad=bad: h['transition_list'].__setitem__(s, bad)
         for k in range(len(g['transition_list'][s])):
